@@ -303,37 +303,37 @@ theorem isRealmPath_isUserlib {p : Str} (h : isRealmPath p = true) : isUserlib p
 
 /-! ### the vm module's switch -/
 
-theorem vmField_none_of_not_prefix {raw : Str} (h : (lit "p:").isPrefixOf raw = false) :
+theorem vmField_none_of_not_prefix {raw : Str} (h : (L!"p:").isPrefixOf raw = false) :
     vmField raw = none := by
-  have key : ∀ L : Str, (lit "p:").isPrefixOf L = true → ¬ raw = L := by
+  have key : ∀ L : Str, (L!"p:").isPrefixOf L = true → ¬ raw = L := by
     intro L hL e
     rw [e, hL] at h
     cases h
   unfold vmField
-  simp only [if_neg (key (lit "p:sysnames_pkgpath") (by decide)),
-    if_neg (key (lit "p:syscla_pkgpath") (by decide)),
-    if_neg (key (lit "p:chain_domain") (by decide)),
-    if_neg (key (lit "p:default_deposit") (by decide)),
-    if_neg (key (lit "p:storage_price") (by decide)),
-    if_neg (key (lit "p:storage_fee_collector") (by decide)),
-    if_neg (key (lit "p:min_get_read_depth_100") (by decide)),
-    if_neg (key (lit "p:min_set_read_depth_100") (by decide)),
-    if_neg (key (lit "p:min_write_depth_100") (by decide)),
-    if_neg (key (lit "p:fixed_get_read_depth_100") (by decide)),
-    if_neg (key (lit "p:fixed_set_read_depth_100") (by decide)),
-    if_neg (key (lit "p:fixed_write_depth_100") (by decide)),
-    if_neg (key (lit "p:iter_next_cost_flat") (by decide)),
-    if_neg (key (lit "p:preprocess_gas_per_byte") (by decide))]
+  simp only [if_neg (key (L!"p:sysnames_pkgpath") (by decide)),
+    if_neg (key (L!"p:syscla_pkgpath") (by decide)),
+    if_neg (key (L!"p:chain_domain") (by decide)),
+    if_neg (key (L!"p:default_deposit") (by decide)),
+    if_neg (key (L!"p:storage_price") (by decide)),
+    if_neg (key (L!"p:storage_fee_collector") (by decide)),
+    if_neg (key (L!"p:min_get_read_depth_100") (by decide)),
+    if_neg (key (L!"p:min_set_read_depth_100") (by decide)),
+    if_neg (key (L!"p:min_write_depth_100") (by decide)),
+    if_neg (key (L!"p:fixed_get_read_depth_100") (by decide)),
+    if_neg (key (L!"p:fixed_set_read_depth_100") (by decide)),
+    if_neg (key (L!"p:fixed_write_depth_100") (by decide)),
+    if_neg (key (L!"p:iter_next_cost_flat") (by decide)),
+    if_neg (key (L!"p:preprocess_gas_per_byte") (by decide))]
 
 theorem vmField_prefix {raw : Str} {f : VmField} (h : vmField raw = some f) :
-    (lit "p:").isPrefixOf raw = true := by
-  cases hp : (lit "p:").isPrefixOf raw with
+    (L!"p:").isPrefixOf raw = true := by
+  cases hp : (L!"p:").isPrefixOf raw with
   | true => rfl
   | false => rw [vmField_none_of_not_prefix hp] at h; cases h
 
 /-- a raw key `r:k` with colon-free `r ≠ "p"` never starts with "p:" -/
-theorem not_p_prefix {r k : Str} (hr : hasColon r = false) (hp : r ≠ lit "p") :
-    (lit "p:").isPrefixOf (r ++ ':' :: k) = false := by
+theorem not_p_prefix {r k : Str} (hr : hasColon r = false) (hp : r ≠ L!"p") :
+    (L!"p:").isPrefixOf (r ++ ':' :: k) = false := by
   cases r with
   | nil =>
     show List.isPrefixOf ['p', ':'] (':' :: k) = false
